@@ -765,10 +765,10 @@ def check_decoded_on_every_read(ck, R3):
         ck.need(fi is not None, "DataSourceMetadataSource.%s not found" % entry)
         fa = FA(ck, fi)
         sl = ValueSlice(ck, lambda c: A.call_attr(c) == "decode_memento").of_results(fi)
-        if not sl.stopped:
-            raise AnalysisError("%s: cannot find where the mementos it returns are decoded (no decode_memento call in the value flow of its result)" % fa.qual)
         stale = surviving_state_in(ck, sl)
         memo = [(u, _memoizing_decorator(u)) for u in sl.units if _memoizing_decorator(u)]
+        if not sl.stopped and not stale and not memo:
+            raise AnalysisError("%s: cannot find where the mementos it returns are decoded (no decode_memento call in the value flow of its result)" % fa.qual)
         ok = not stale and not memo
         if ok:
             msg = "every memento handed out is decoded on this read (%d decode site(s) in %s)" % (
